@@ -113,7 +113,7 @@ def _work(args):
             continue
         agg.add(res, keep_sample=(n < 1))
         if res.get("violation"):
-            if len(agg.violations) < 4:
+            if len(agg.violations) < 12:
                 try:
                     mcase, mviol, _ = _minimise_job((prop_id, res["case"], res["violation"]))
                 except Exception as e:   # pylint: disable=broad-except
@@ -292,10 +292,14 @@ def main(prop_id, tier, seed, runs=None, jobs=None, wall=None):
     known_tally = collections.Counter()
     open_findings = findings.open_for(prop_id)
     for f in open_findings:
+        tried = 0
         for exm in f.get("exemplars", []):
             p = os.path.join(VERIF, exm)
             try:
                 doc = unjs(json.load(open(p)))
+                if doc.get("property") != prop_id:
+                    continue
+                tried += 1
                 r = prop.replay(doc["case"])
                 v = r.get("violation")
                 if v and findings.match_one(f, doc["case"], v):
@@ -306,9 +310,25 @@ def main(prop_id, tier, seed, runs=None, jobs=None, wall=None):
                 print("HARNESS: exemplar %s failed to replay: %r" % (exm, e))
                 exit_code = 2
         else:
-            if f.get("exemplars"):
-                print("NOTE: known finding %s no longer reproduces from its exemplar(s)" % f["id"])
+            if tried:
+                print("NOTE: known finding %s no longer reproduces from its exemplar(s) for %s" % (f["id"], prop_id))
     printed_known = set(l.split()[2] for l in lines)
+    # (a') exemplars of *fixed* findings are regression cases: a fixed entry suppresses nothing, and if the
+    #      recorded history fails again it is reported as a violation like any other
+    regress = []
+    for f in findings.fixed_for(prop_id):
+        for exm in f.get("regression_exemplars", []):
+            p = os.path.join(VERIF, exm)
+            try:
+                doc = unjs(json.load(open(p)))
+                if doc.get("property") != prop_id:
+                    continue
+                r = prop.replay(doc["case"])
+                if r.get("violation"):
+                    regress.append((f["id"], doc["case"], r["violation"]))
+            except Exception as e:
+                print("HARNESS: regression exemplar %s failed to replay: %r" % (exm, e))
+                exit_code = 2
 
     # (b) seeded search: one fresh interpreter per worker (fork()ed workers of a warm parent run ~6x slower in
     #     this VM: copy-on-write of a refcounted heap), results exchanged as pickles
@@ -379,6 +399,30 @@ def main(prop_id, tier, seed, runs=None, jobs=None, wall=None):
                 reported.append(path)
                 print("violation class=%s detail=%s" % (mviol["cls"], str(mviol.get("detail"))[:600]))
                 print("VIOLATION property=%s replay=%s" % (prop_id, path))
+    # (c') rate guard: an open finding is a *measured* tail of the unchanged tree.  If far more runs fail than the
+    #      recorded rates explain, some other defect is hiding behind a finding's pattern: reported as a violation
+    #      (replay = the smallest matched case).  Threshold = max(3x, +10 sigma + 10) of the expected count.
+    raw_viol = len(agg.violations) + agg.extra.get("violations_not_kept", 0)
+    exp = sum(f.get("expected_rate", {}).get(prop_id, 0.0) for f in open_findings) * agg.evaluations
+    limit = max(3 * exp, exp + 10 * (exp ** 0.5) + 10)
+    rate_info = {"raw_violations": raw_viol, "expected_known": round(exp, 2), "limit": round(limit, 1)}
+    if open_findings and raw_viol > limit and not reported:
+        matched = [(len(m.get("plan", [])), i, m, mv) for i, c, v, m, mv in viols if mv is not None and findings.match(prop_id, m, mv)]
+        if matched:
+            _, idx, mcase, mviol = min(matched, key=lambda t: (t[0], t[1]))
+            mviol = dict(mviol)
+            mviol["rate_anomaly"] = rate_info
+            path = write_replay(prop_id, seed, idx, mcase, mviol)
+            n_viol += 1
+            reported.append(path)
+            print("violation class=known-finding-rate-anomaly: %d failing runs of %d, but the open findings explain about %.1f (limit %.1f); one of them:" % (raw_viol, agg.evaluations, exp, limit))
+            print("VIOLATION property=%s replay=%s" % (prop_id, path))
+    for k, (fid, case, viol) in enumerate(regress):
+        path = write_replay(prop_id, seed, -1 - k, case, viol, {"note": "regression of fixed finding %s" % fid})
+        n_viol += 1
+        reported.append(path)
+        print("violation (regression of fixed finding %s) class=%s detail=%s" % (fid, viol["cls"], str(viol.get("detail"))[:600]))
+        print("VIOLATION property=%s replay=%s" % (prop_id, path))
     for l in lines:
         print(l)
     if reported and exit_code == 0:
@@ -402,7 +446,7 @@ def main(prop_id, tier, seed, runs=None, jobs=None, wall=None):
             "families": dict(agg.families),
             "distinct_state_fingerprints": len(agg.fingerprints),
             "max_rounds_to_quiet": agg.max_rounds,
-            "known_finding_hits": dict(known_tally),
+            "known_finding_hits": dict(known_tally), "known_finding_rate_guard": rate_info,
             "workers": jobs, "hashseed": os.environ.get("PYTHONHASHSEED"),
             "real_components": getattr(prop, "REAL", []),
             "stubbed_components": getattr(prop, "STUBS", []),
